@@ -123,7 +123,9 @@ def recursion_module(pre_imports):
 
 
 NAMES = [('env', 'a_b'), ('env', 'a__b'), ('env', 'aXb'), ('env', 'a-b'), ('env', 'a.b'), ('env', '9a'), ('env', 'aX2Db'), ('env', 'a b'),
-         ('e_v', 'ab'), ('env', 'a_'), ('env', '_a'), ('env', 'A'), ('env', 'a'), ('x', 'a$b'), ('env', 'a___b')]
+         ('e_v', 'ab'), ('env', 'a_'), ('env', '_a'), ('env', 'A'), ('env', 'a'), ('x', 'a$b'), ('env', 'a___b'),
+         # an underscore, then characters that get escaped, then an underscore again (the escaper looks at the previous character)
+         ('env', 'a_$_b'), ('env', 'f_._g'), ('env', 'x_X_y'), ('env', '_$'), ('env', '$_'), ('env', 'a_$$_b'), ('e_$_v', 'q')]
 
 
 class Collision(Exception):
